@@ -202,7 +202,7 @@ theorem mem_take_get (l : List XRef) (n : Nat) (e : XRef) (h : e ∈ l.take n) :
   · exact ⟨j, ‹_›, hj⟩
   · simp at hj
 
-theorem save_succeeds (P : Params V) (L : Layout) (hL : L.Pos) (d0 d : Doc V) (chain0) (hb : BaseOK d0 chain0)
+theorem save_succeeds (P : Params V) (L : Layout) (hL : L.Pos) (ht : L.typed = true) (d0 d : Doc V) (chain0) (hb : BaseOK d0 chain0)
     (hi : Inv d0 d) (hs : Savable P d) (hsz : d.st.refs.length + 2 ≤ MAX_ID) :
     ∃ d' i, save P L d = (d', .ok i) := by
   have pf := prep_facts d0 d chain0 hb hi
@@ -247,6 +247,8 @@ theorem save_succeeds (P : Params V) (L : Layout) (hL : L.Pos) (d0 d : Doc V) (c
     · exact ⟨_, i, hs2⟩
     · -- the trailer loads: the root still resolves, the info dictionary is pending
       exfalso
+      rcases hl with hl | hl
+      case inr => rw [ht] at hl; cases hl
       have hi2 : Inv d0 ⟨commit P L d (prep d) w (w.refs.set (prep d).xid (.raw (w.len - (prep d).st2.start) 0)) rows, d.tr⟩ :=
         inv_of_commit P L hL d0 d _ chain0 hb hi w rows hw rfl rfl
       have hlook : ∀ j, chLookup (commit P L d (prep d) w (w.refs.set (prep d).xid (.raw (w.len - (prep d).st2.start) 0)) rows).changes j =
